@@ -109,10 +109,14 @@ def first_error(log, fname):
 
 
 def vo_ok(rel):
-    """rel like Properties/C18.v : compiled and up to date."""
-    v = os.path.join(COQ, rel)
-    vo = v + "o"
-    return os.path.exists(vo) and os.path.getmtime(vo) >= os.path.getmtime(v)
+    """rel like Properties/C18.v : compiled and up to date w.r.t. everything it depends on
+    (`make -q`: exit status 0 iff nothing would have to be rebuilt)."""
+    vo = os.path.join(COQ, rel) + "o"
+    if not os.path.exists(vo):
+        return False
+    with Lock():
+        rc, _ = sh(["make", "-q", rel + "o"], 300, cwd=COQ)
+    return rc == 0
 
 
 def theorems_of(rel):
